@@ -80,15 +80,16 @@ def run(chk, args):
     big = thorough
     # design: exhaustive, must hold
     job("design writers x truncation (split commit, aborts)", "must-pass",
-        dict(NW=4 if big else 3, Shapes="std" if big else "min", MaxTrunc=2 if big else 1, SplitCommit=T, MaxAborts=1, FineWalk=tf(big)), workers=6 if big else 3, timeout=1500)
-    job("design two concurrent truncations", "must-pass", dict(NW=3 if big else 2, Shapes="min", MaxTrunc=2, NT=2, FineWalk=tf(big)), timeout=1500)
+        dict(NW=4 if big else 3, Shapes="min", MaxTrunc=2 if big else 1, SplitCommit=T, MaxAborts=1), workers=6 if big else 3, timeout=1700)
+    job("design two concurrent truncations", "must-pass", dict(NW=3 if big else 2, Shapes="min", MaxTrunc=2, NT=2, FineWalk=tf(big)), workers=4 if big else 3, timeout=1700)
     job("design export x truncation x restart", "must-pass",
-        dict(NW=2, Shapes="std" if big else "exp", MaxTrunc=1, MaxExports=2 if big else 1, NE=2 if big else 1, MaxRestarts=1), timeout=1500)
-    job("design three value logs", "must-pass", dict(M=3, NW=3, Shapes="min" if big else "unit", MaxTrunc=2 if big else 1), timeout=1500)
+        dict(NW=2, Shapes="std" if big else "exp", MaxTrunc=1, MaxExports=2 if big else 1, NE=2 if big else 1, MaxRestarts=1), timeout=1700)
+    job("design three value logs", "must-pass", dict(M=3, NW=3, Shapes="min" if big else "unit", MaxTrunc=2 if big else 1), timeout=1700)
     if big:
-        job("design empty values, three-value txs", "must-pass", dict(NW=3, Shapes="std", MaxTrunc=2, SplitCommit=T, FineWalk=T), workers=6, timeout=1700)
-        job("design five txs", "must-pass", dict(NW=5, Shapes="min", MaxTrunc=1, SplitCommit=Fa), workers=6, timeout=1700)
-        job("design chunk of three values", "must-pass", dict(F=3, NW=3, Shapes="std", MaxTrunc=2), timeout=1500)
+        job("design empty values, two-entry txs, walks one tx per step", "must-pass", dict(NW=3, Shapes="std", MaxTrunc=2, SplitCommit=T, FineWalk=T), workers=5, timeout=1700)
+        job("design five txs, one value log", "must-pass", dict(M=1, NW=5, Shapes="min", MaxTrunc=2), workers=5, timeout=1700)
+        job("design five txs, two value logs", "must-pass", dict(NW=5, Shapes="unit", MaxTrunc=1), workers=4, timeout=1700)
+        job("design chunk of three values", "must-pass", dict(F=3, NW=3, Shapes="std", MaxTrunc=2), timeout=1700)
     # code as transcribed, same bounds (a counterexample is a candidate, decided on the real store below)
     job("code two concurrent truncations", "code", dict(code, NW=2, Shapes="min", MaxTrunc=2, NT=2, inv="TypeOK NoLockCycle"))
     if big:
@@ -207,7 +208,7 @@ def run(chk, args):
         vlib.absorb(chk, r)
     c = chk.cov.get("counters", {})
     need = ["placement-compared", "chunks-compared", "cut-points", "old-value:explicit-error", "old-value:still-served", "export:values",
-            "export:digests", "export:error", "op:append(parked)", "op:commit", "op:restart", "op:abort", "op:DualProof", "op:Get",
+            "export:digests", "export:error", "op:append(parked)", "op:commit", "op:restart", "op:DualProof", "op:Get", "repro:export-after-partially-truncated-tx",
             "db:truncations", "db:restart", "db:old-row-error", "db:row-served", "db:doc-served", "free:truncations", "race:each-call-held-one-log"]
     missing = [k for k in need if not c.get(k)]
     if missing:
